@@ -245,12 +245,23 @@ def catchDifficultyFromBytes (C : Casts F S) (A : Rosu.SliderEvents.Arith F) (CA
   | .panic => .panic
   | .fuel => .fuel
 
-/-- the attributes after the `k`-th `next()` of `CatchGradualDifficulty` on the file -/
+/-- the value of the `k`-th `next()` of `CatchGradualDifficulty` on the file; `none` = the iterator
+is exhausted (one value per palpable object = per gradual count record) -/
 def catchGradualFromBytes (C : Casts F S) (A : Rosu.SliderEvents.Arith F) (CA : Rosu.ConvCatch.CAr S F)
     (SA : SecArith F) (fuel : Nat) (start0 : F) (bytes : List UInt8) (i : CatchInputs F S) (k : Nat)
-    (curves : CurveInputs F S) : Out (Rosu.PipelineCatch.CatchAttrs F) :=
+    (curves : CurveInputs F S) : Out (Option (Rosu.PipelineCatch.CatchAttrs F)) :=
   match catchDecoded O bytes curves i.bananas with
-  | .ok os => ofRes (Rosu.PipelineCatch.catchGradualValue C A CA SA fuel start0 (catchSettings i) k os)
+  | .ok os =>
+    match Rosu.PipelineCatch.convertAll A fuel (CA.ofInt 0) os with
+    | .clampPanic => .panic
+    | .outOfFuel => .fuel
+    | .ok (_, recs) =>
+      if k = 0 ∨ (Rosu.Gradual.catchGradualRecs recs).length < k then .ok none
+      else
+        match Rosu.PipelineCatch.catchGradualValue C A CA SA fuel start0 (catchSettings i) k os with
+        | .ok a => .ok (some a)
+        | .panic => .panic
+        | .fuel => .fuel
   | .ioError => .ioError
   | .otherMode m => .otherMode m
   | .missingInputs => .missingInputs
